@@ -20,7 +20,7 @@ class TranslateError(Exception):
 TOK = re.compile(r"""
    (?P<num>\d[\d_]*(?:\.\d*)?(?:[eE][+-]?\d+)?(?:f64|u64|i64|usize)?)
  | (?P<id>[A-Za-z_][A-Za-z0-9_]*(?:::[A-Za-z_][A-Za-z0-9_]*)*)
- | (?P<op>=>|<=|>=|==|!=|&&|\|\||\*=|\+=|-=|/=|[-+*/<>=!&.,;(){}\[\]|:])
+ | (?P<op>=>|<=|>=|==|!=|&&|\|\||\*=|\+=|-=|/=|[-+*/%<>=!&.,;(){}\[\]|:])
  | (?P<ws>\s+)
 """, re.X)
 
@@ -122,7 +122,7 @@ class Parser:
         return b
 
     # ---- expressions (Pratt)
-    PREC = {"||": 1, "&&": 2, "<": 3, ">": 3, "<=": 3, ">=": 3, "==": 3, "!=": 3, "+": 4, "-": 4, "*": 5, "/": 5}
+    PREC = {"||": 1, "&&": 2, "<": 3, ">": 3, "<=": 3, ">=": 3, "==": 3, "!=": 3, "+": 4, "-": 4, "*": 5, "/": 5, "%": 5}
 
     def expr(self, minprec=0):
         lhs = self.unary()
@@ -354,6 +354,10 @@ def emit(n, cx):
         op, l, r = n[1], emit(n[2], cx), emit(n[3], cx)
         if op in "+-*/":
             return "(%s %s %s)" % (l, op, r)
+        if op == "%":
+            if r != "n1":
+                raise TranslateError("remainder by something other than 1.")
+            return "(nrem1 %s)" % l
         if op == "<":
             return "(%s <? %s)" % (l, r)
         if op == ">":
@@ -398,6 +402,8 @@ def emit(n, cx):
             return "(n%s %s %s)" % (name, r, a[0])
         if name in ("mul", "add", "sub", "div") and len(a) == 1:
             return "(%s %s %s)" % (r, {"mul": "*", "add": "+", "sub": "-", "div": "/"}[name], a[0])
+        if name == "to_radians" and not a:
+            return "(to_radians NN pi_ %s)" % r
         if name == "powf" and len(a) == 1:
             return "(fpow %s %s)" % (r, a[0])
         raise TranslateError("unknown method .%s/%d" % (name, len(a)))
